@@ -6,7 +6,6 @@ OBLIGATIONS = [
 for h, d in [('operator', 'size + 1 / size - 1 / size * 1'), ('brackets', '2 + 3 * 4 vs (2 + 3) * 4; 1 - (2 - 3) vs (1 - 2) - 3'), ('args', 'substr(name,1,2) vs substr(name,1,3)'), ('sign', '-size vs size; length(name) vs name')]:
     OBLIGATIONS.append(ob(f'C15.display.injective.{h}', 'verif_frag::exprkey::c15_key_' + h, f'Display for Expr (verbatim body on shim types) gives different cache keys to: {d}', units=['exprkey'], complete=False, bound='concrete expression pairs'))
 OBLIGATIONS.append(ob('C15.minus.column', 'verif_frag::colvalue::c15_minus_column', 'get_column_expr_value (verbatim body on shim types): a leading minus negates the value of a column, of a function call and of a literal; without it the value is unchanged (4 witnesses)', units=['colvalue'], complete=False, bound='4 concrete expressions'))
-OBLIGATIONS.append(ob('C15.eval.arith', 'verif_frag::colvalue::c15_eval_arith', 'get_column_expr_value: a binary node evaluates to calc(left value, right value) with its own operator, operands in order', units=['colvalue'], complete=False, bound='1 concrete expression'))
 OBLIGATIONS.append(ob('C15.negative.literal', 'function::verif_kani::c15_negative_literal', 'the real Variant::to_int / from_signed_string: the literals -5, 5, 0 denote themselves and a leading minus negates a literal (5 witnesses)', engine='K', units=['variant'], complete=False, bound='5 concrete literals'))
 OBLIGATIONS.append(ob('C15.where.float', CMP + 'c02_cmp_float', 'a WHERE condition on a fractional expression value compares the exact f64 value (float arm of conforms, all non-NaN f64 pairs; shared with C02)', units=['cmp']))
 OBLIGATIONS.append(dict(id='C15.tree.muldiv', engine='V', verus_fn='Parser::parse_mul_div', label='C15.tree.muldiv', complete=True, bound=None, units=[], harness='verus:Parser::parse_mul_div', tier='quick',
@@ -15,5 +14,5 @@ OBLIGATIONS.append(dict(id='C15.tree.addsub', engine='V', verus_fn='Parser::pars
     desc='same for parse_add_sub with + and -; its operands come from parse_mul_div (so * / % bind tighter - by the call structure)'))
 CANARIES = [dict(harness='function::verif_kani::canary_function_must_fail', units=['variant']), dict(harness='verif_frag::exprkey::canary_exprkey_must_fail', units=['exprkey']), dict(harness='verif_frag::colvalue::canary_colvalue_must_fail', units=['colvalue'])]
 ASSUMPTIONS = ['IEEE-754 f64 arithmetic evaluated by CBMC constant propagation on the witnesses']
-NOT_COVERED = ['precedence / associativity of the parsed tree', 'independence of columns beyond the listed key pairs (get_column_expr_value itself is not under contract)', 'get_column_expr_value', 'lexer operator detection', '% (fmod unsupported by CBMC)', 'all non-witness operand values']
+NOT_COVERED = ['evaluation of a binary node by get_column_expr_value (the recursive shim harness did not terminate in 240 s and was removed)', 'precedence / associativity of the parsed tree', 'independence of columns beyond the listed key pairs (get_column_expr_value itself is not under contract)', 'get_column_expr_value', 'lexer operator detection', '% (fmod unsupported by CBMC)', 'all non-witness operand values']
 HARNESS_TIMEOUT = 240
